@@ -124,7 +124,7 @@ def run(rep, tier, seed, prop, assumptions, corr_stream):
     rng = random.Random(seed * 104729 + (7 if prop == "C07" else 1))
     aud = common.audit(prop)
     exe = common.build_harness("treeprog")
-    n = (250 if tier == "quick" else 5000)
+    n = (250 if tier == "quick" else 1500)      # 1500 programs: the thorough tier stays within its 30 min budget
     prog, meta = [], {}
     corpus_dir = os.path.join(common.VERIF, "corpus", prop)
     if os.path.isdir(corpus_dir):
